@@ -530,6 +530,173 @@ def add_flags(case):
 
 
 # --------------------------------------------------------------------------
+# ObjectFactory stream (Model/Factory.v): defaults, explicit arguments, list properties
+
+MARKS = [base.mk_id("marking-definition", k) for k in range(1, 5)]
+CREATORS = [base.POOL["identity"][k] for k in range(3)]
+EXTS = ["d1", "d2", "k1", "k2"]
+
+
+def _times():
+    return [base.storeutil.ts_text(base.BASE_US + off, "ms") for off in (0, 1000, 86400 * 10 ** 6, -1000)]
+
+
+FACT_HEADER = ("From Coq Require Import NArith ZArith List String Bool.\n"
+               "From V Require Import Base.UString Model.Store Model.Factory.\n"
+               "Import ListNotations. Open Scope string_scope.\n")
+
+
+def coq_fval(v):
+    if v is None:
+        return "FNone"
+    if isinstance(v, list):
+        return "(FMany %s)" % common.coq_list([common.coq_ustr(x) for x in v])
+    return "(FOne %s)" % common.coq_ustr(v)
+
+
+def coq_fdict(d):
+    return common.coq_list(["(%s, %s)" % (common.coq_ustr(k), coq_fval(v)) for k, v in d.items()])
+
+
+def factory_term(c):
+    i = c["init"]
+    return "run_factory ESO %s %s %s %s %s %s %s" % (
+        coq_fval(i.get("created_by_ref")), coq_fval(i.get("created")), coq_fval(i.get("external_references")),
+        coq_fval(i.get("object_marking_refs")), common.coq_bool(c["list_append"]),
+        common.coq_list(["(%s, %s)" % (common.coq_nat(n), coq_fval(v)) for n, v in c["setters"]]),
+        common.coq_list([coq_fdict(kw) for kw in c["calls"]]))
+
+
+def gen_fval(rng, key, allow_none=True):
+    r = rng.random()
+    if key == "created_by_ref":
+        return None if allow_none and r < 0.2 else rng.choice(CREATORS)
+    if key == "created":
+        return None if allow_none and r < 0.2 else rng.choice(_times())
+    pool = EXTS if key == "external_references" else MARKS
+    if allow_none and r < 0.15:
+        return None
+    if r < (0.25 if key == "external_references" else 0.45):
+        return rng.choice(pool)
+    if r < 0.5:
+        return []
+    return rng.sample(pool, rng.randint(1, 3))
+
+
+def gen_factory_case(rng):
+    keys = ["created_by_ref", "created", "external_references", "object_marking_refs"]
+    init = {}
+    for k in keys:
+        if rng.random() < 0.5:
+            v = gen_fval(rng, k)
+            # a single external reference as the only default is refused by the class for another reason
+            init[k] = v
+    setters = []
+    for _ in range(rng.choice([0, 0, 1, 2])):
+        n = rng.randrange(4)
+        setters.append([n, gen_fval(rng, keys[n], allow_none=rng.random() < 0.3)])
+    cls = rng.choice(["xreg21", "xreg21", "xreg20", "campaign21"])
+    calls = []
+    for _ in range(rng.randint(1, 4)):
+        kw = {}
+        if cls == "campaign21":
+            kw["name"] = "n"
+        for k in keys + ["modified"]:
+            if rng.random() < 0.35:
+                kw[k] = gen_fval(rng, "created" if k == "modified" else k)
+        calls.append(kw)
+    return {"kind": "factory", "cls": cls, "init": init, "list_append": rng.random() < 0.7, "setters": setters,
+            "calls": calls, "via": rng.choice(["factory", "env"])}
+
+
+def factory_model_rows(line):
+    rows = []
+    for part in line.split("|"):
+        if part:
+            toks = part.split("\\,")
+            if toks and toks[-1] == "":
+                toks.pop()
+            rows.append(toks)
+    return rows
+
+
+def factory_compare(line, impl):
+    """-> description of the first difference or None.  A class that refuses the arguments (exception) is
+    matched with a refused property in the model; the reasons a class refuses for (a dictionary where a list of
+    external references is expected, a timestamp order rule) are outside this model and skipped."""
+    if isinstance(impl, dict):
+        return "worker: %s" % impl
+    rows = factory_model_rows(line)
+    if len(rows) != len(impl):
+        return "length %d vs %d" % (len(rows), len(impl))
+    for k, (m, i) in enumerate(zip(rows, impl)):
+        if isinstance(i, str):
+            if "!" not in m:
+                return "call %d: the class refused (%s), the model builds %s" % (k, i[1:], m)
+            continue
+        if "!" in m:
+            return "call %d: model says the class refuses, implementation built %s" % (k, i)
+        mi = []
+        for tok in m:
+            if tok == "-":
+                mi.append("-")
+            elif tok.startswith("="):
+                mi.append("=" + common.ustr_unescape(tok[1:]))
+            else:
+                mi.append([common.ustr_unescape(x) for x in tok[1:-1].split(";") if x])
+        i = list(i)
+        for j in (1, 2):                  # created / modified not given: the class fills in the current time
+            if mi[j] == "-":
+                i[j] = "-"
+        if mi != i:
+            return "call %d: model %s, implementation %s" % (k, mi, i)
+    return None
+
+
+def factory_documented(c, impl):
+    """documented behaviour of ObjectFactory.create, on the implementation's observations (search only)"""
+    out = []
+    if isinstance(impl, dict):
+        return out
+    keys = ["created_by_ref", "created", "modified", "external_references", "object_marking_refs"]
+    d = {}
+    src = {"created_by_ref": "created_by_ref", "created": "created", "external_references": "external_references",
+           "object_marking_refs": "object_marking_refs"}
+    for k, v in c["init"].items():
+        if v:
+            d[src[k]] = v
+            if k == "created":
+                d["modified"] = v
+    for n, v in c["setters"]:
+        k = ["created_by_ref", "created", "external_references", "object_marking_refs"][n]
+        d[k] = v
+        if k == "created":
+            d["modified"] = v
+    for kw, got in zip(c["calls"], impl):
+        if isinstance(got, str):
+            continue
+        for j, k in enumerate(keys):
+            is_list = k in ("external_references", "object_marking_refs")
+            as_l = lambda v: v if isinstance(v, list) else [v]  # noqa: E731
+            if k in kw:
+                v = kw[k]
+                if is_list and c["list_append"] and k in d and v is not None and d[k] is not None:
+                    want = as_l(d[k]) + as_l(v)
+                else:
+                    want = v
+            else:
+                want = d.get(k)
+            exp = "-" if want is None or want == [] else (as_l(want) if is_list else "=" + want)
+            if exp == "-" and k in ("created", "modified"):
+                continue
+            if got[j] != exp:
+                out.append(Violation("ObjectFactory.create: %s is %s, documented defaults/arguments give %s" % (k, got[j], exp),
+                                     {"kind": "c18-factory", "case": c}))
+                break
+    return out
+
+
+# --------------------------------------------------------------------------
 
 def detect_rm(impl_w):
     try:
@@ -597,6 +764,36 @@ def check(run):
     except RuntimeError as e:
         broke = True
         run.broken.append(Broken("correspondence", "model evaluation failed", {"error": str(e)[-1500:]}))
+    # ObjectFactory stream: model vs implementation
+    fcases = [gen_factory_case(run.rng) for _ in range(150 if quick else 3000)]
+    fprobe = {"kind": "factory", "cls": "xreg21", "init": {"external_references": "p"}, "list_append": True,
+              "setters": [], "calls": [{}], "via": "factory"}
+    eso = not isinstance(common.run_impl("c18_impl", [fprobe], procs=1)[0][0], str)
+    run.coverage["variant_selected"]["single_external_reference_accepted"] = eso
+    fimpl = common.run_impl("c18_impl", fcases)
+    fbroke = False
+    try:
+        flines = base.eval_cases("c18f", FACT_HEADER + "Definition ESO := %s.\n" % common.coq_bool(eso),
+                                 [factory_term(c) for c in fcases], shard=50)
+        fdis = []
+        for c, i, m in zip(fcases, fimpl, flines):
+            d = factory_compare(m, i)
+            if d:
+                fdis.append({"case": c, "difference": d, "impl": i, "model": m})
+        run.coverage["factory_cases"] = len(fcases)
+        run.coverage["factory_disagreements"] = len(fdis)
+        for c, i in zip(fcases, fimpl):
+            run.count(c, nontrivial=isinstance(i, list) and any(isinstance(r, list) for r in i))
+        if fdis:
+            fbroke = True
+            run.broken.append(Broken("correspondence", "Model/Factory.v vs ObjectFactory / Environment.create",
+                                     {"first": fdis[:3], "count": len(fdis)}))
+    except RuntimeError as e:
+        fbroke = True
+        run.broken.append(Broken("correspondence", "factory model evaluation failed", {"error": str(e)[-1500:]}))
+    if fbroke:
+        for c, i in zip(fcases, fimpl):
+            run.violations += factory_documented(c, i)
     for k in c18_cases:
         run.violations += oracle_case(cases[k], impl[k])
     for a, b in pairs:
@@ -630,6 +827,18 @@ def check(run):
 def replay(payload):
     r = payload["replay"]
     case = r["case"]
+    if r.get("kind") == "c18-factory":
+        impl = common.run_impl("c18_impl", [case], procs=1)[0]
+        print("replay C18 ObjectFactory: init %s, setters %s, list_append %s" % (case["init"], case["setters"], case["list_append"]))
+        for kw, g in zip(case["calls"], impl if isinstance(impl, list) else []):
+            print("  create(%s) -> %s" % (kw, g))
+        vs = factory_documented(case, impl)
+        if vs:
+            print("  " + vs[0].what)
+            print("VIOLATION property=C18 replay=(given)")
+            return 1
+        print("no violation on this input")
+        return 0
     probe = common.run_impl("c11_impl", [{"kind": "probe"}], procs=1)[0]
     base.NAIVE_KEPT[0] = bool(probe.get("naive_kept", True))
     impl = common.run_impl("c18_impl", [case], procs=1)[0]
